@@ -130,6 +130,15 @@ def st_try_branch(ex, callee, args, st):
         return _ret(Adt("ControlFlow", "Break", [Adt("Result", "Err", list(v.fields))]), st)
     if isinstance(v, Adt) and v.variant == "None":
         return _ret(Adt("ControlFlow", "Break", [Adt("Option", "None", [])]), st)
+    if isinstance(v, Sym) and v.tdef is not None and v.tdef.name == "Result":
+        out = []
+        st_ok = ex._assume_switch(st, v.tag(), "0", [])
+        if st_ok is not None:
+            out.append(("return", Adt("ControlFlow", "Continue", [v.child("Ok", 0)]), None, st_ok))
+        st_err = ex._assume_switch(st, v.tag(), "1", [])
+        if st_err is not None:
+            out.append(("return", Adt("ControlFlow", "Break", [Adt("Result", "Err", [v.child("Err", 0)])]), None, st_err))
+        return out
     raise Unsupported(f"`?` on {v!r}")
 
 
